@@ -2173,7 +2173,10 @@ class Interp:
         for nm, g in inv_items(k0):
             e.prove(f'{tag}/init/{nm}', g)
         # --- havoc
+        target_names = assigned_names([ast.Assign(targets=[s.target], value=ast.Constant(0))]) if isinstance(s, ast.For) else []
         for nm in body_names:
+            if nm in target_names and nm not in spec.carried:
+                continue      # (re)bound from the iterable at the start of every iteration
             if nm in spec.carried:
                 env.set(nm, spec.carried[nm](self, env))
                 continue
